@@ -93,6 +93,12 @@ type sched struct {
 
 var activeSched *sched
 
+// schedFine switches the two scheduling points inside a critical section (lock just acquired, lock
+// about to be released) on. They let the other threads run while one thread holds the lock, which is
+// what exposes code that bypasses the lock; they multiply the number of schedules, so the larger
+// program shapes of the thorough tier run without them.
+var schedFine = true
+
 func schedHook(ev string, stackID, mutexID uintptr) {
 	s := activeSched
 	if s == nil || s.aborted.Load() {
@@ -114,11 +120,26 @@ func schedHook(ev string, stackID, mutexID uintptr) {
 			panic(lockProtocolPanic{fmt.Sprintf("T%d (%s) entered the locked section of a stack while T%d is still inside it (two different mutexes guard one stack)", t.id, t.curOp, other)})
 		}
 		s.inCS[stackID] = t.id
+		// holding the lock is a scheduling point too: the others get to run while this thread is inside
+		// its critical section. Code that takes the lock is parked at lock.want (not enabled); code that
+		// forgets to, or decides not to, runs on - and its writes show up outside any locked section.
+		t.lastEv = ev
+		if schedFine {
+			s.yield(t)
+		}
+		return
 	case "lock.release":
 		if owner, ok := s.held[mutexID]; !ok || owner != t.id {
 			panic(lockProtocolPanic{fmt.Sprintf("T%d (%s) is about to unlock a mutex it does not hold", t.id, t.curOp)})
 		}
+		// the end of the critical section, lock still held: one more point at which the others may run
+		// (everything the holder wrote, and all of its lock bookkeeping, is in place now)
+		t.lastEv = ev
+		if schedFine {
+			s.yield(t)
+		}
 		delete(s.inCS, stackID)
+		return
 	case "lock.released":
 		delete(s.held, mutexID)
 		t.holding--
@@ -140,6 +161,7 @@ func schedUserPoint(name string) {
 	}
 	t := s.threads[s.cur]
 	s.observe(t, "closure:"+name)
+	t.lastEv = "closure:" + name
 	s.res.trace = append(s.res.trace, fmt.Sprintf("T%d %s inside user closure %s", t.id, t.curOp, name))
 	s.yield(t)
 }
@@ -162,7 +184,9 @@ func (s *sched) observe(t *thr, ev string) {
 	d := stackage.VerifDump(s.target)
 	k := d.Key(false)
 	if k != s.lastKey {
-		if !(t.lastEv == "lock.held" && (ev == "lock.release" || ev == "lock.want")) {
+		// legal: the running thread is inside a critical section (it holds a lock and has not yet
+		// announced that it is about to let go); user closures called in there are part of it
+		if !(t.holding > 0 && t.lastEv != "lock.release" && t.lastEv != "op.start" && ev != "lock.held") {
 			s.res.writes = append(s.res.writes, unlockedWrite{Op: opClass(t.curOp), From: t.lastEv, To: ev, What: diffClass(s.last, d)})
 		}
 		s.last, s.lastKey = d, k
